@@ -55,6 +55,7 @@ type Case struct {
 	Genesis   bool      `json:"genesis_ops,omitempty"`
 	SnapTx    *SnapTx   `json:"snaptx,omitempty"`
 	Restart   *Restart  `json:"restart,omitempty"`
+	Recorded  *Recorded `json:"recorded,omitempty"`
 }
 
 // classes named by the property text
@@ -334,6 +335,8 @@ func run(c *vh.Ctx, e *env, cs Case) {
 		runSnapTx(c, cs)
 	case "restart":
 		runRestart(c, cs)
+	case "recorded":
+		runRecorded(c, cs)
 	}
 }
 
@@ -547,7 +550,7 @@ func runChain(c *vh.Ctx, cs Case) {
 
 func main() {
 	c := vh.Start("C28")
-	c.Rep.Rule = "type: every input-kind prefix x output type list (distinct by shape); kernel/refs: random snapshots of 1-4 members over all classes on a mainnet-genesis node and a private-genesis node (distinct by full case; non-trivial = found map non-empty / consensus-class member); snaptx: a consensus-class operation already in persistent storage re-proposed through validateSnapshotTransaction in a batch (both hash orders), with a stale reference, or not later (distinct by kind x scenario x members); restart: consensus operations finalized on a real store with a stop between WriteSnapshot and WriteConsensusSnapshot of the last one, then the real SetupNode on the same directory (oracle only); chain: sequences of 4-12 recorded operations with random references and timestamps on a fresh store (non-trivial = at least one operation extended the chain)"
+	c.Rep.Rule = "type: every input-kind prefix x output type list (distinct by shape); kernel/refs: random snapshots of 1-4 members over all classes on a mainnet-genesis node and a private-genesis node (distinct by full case; non-trivial = found map non-empty / consensus-class member); snaptx: a consensus-class operation already in persistent storage re-proposed through validateSnapshotTransaction in a batch (both hash orders), with a stale reference, or not later (distinct by kind x scenario x members); restart: consensus operations finalized on a real store with a stop between WriteSnapshot and WriteConsensusSnapshot of the last one, then the real SetupNode on the same directory (oracle only); recorded: every consensus class finalized on a real store and recorded by the kernel's own reloadConsensusState; chain: sequences of 4-12 recorded operations with random references and timestamps on a fresh store (non-trivial = at least one operation extended the chain)"
 	e := &env{}
 	defer e.close()
 	if c.Replay != "" {
@@ -566,8 +569,12 @@ func main() {
 	for _, cs := range restartCorpus() {
 		run(c, e, cs)
 	}
+	for _, cs := range recordedCorpus() {
+		run(c, e, cs)
+	}
 	generate(c, e)
 	snapGenerate(c)
 	restartGenerate(c)
+	recordedGenerate(c)
 	c.Finish()
 }
